@@ -2,6 +2,7 @@
 # seed_detect.sh <seed-id> <property...> : apply /verif/seeded/<id>/patch.diff to /repo, run the checks, undo.
 id=$1; shift
 cd /verif
+rm -rf /var/tmp/ev.bak && cp -r /verif/evidence /var/tmp/ev.bak
 git -C /repo apply /verif/seeded/$id/patch.diff 2>/dev/null || git -C /repo apply /tmp/out-${id%-*}/${id#*-}/patch.diff || { echo "$id: patch does not apply"; exit 2; }
 for p in "$@"; do
   out=$(./bin/rvc check $p 2>&1)
@@ -10,3 +11,4 @@ for p in "$@"; do
   echo "$id $p violations=$n $first"
 done
 git -C /repo checkout -- . 
+rm -rf /verif/evidence && mv /var/tmp/ev.bak /verif/evidence
